@@ -151,7 +151,7 @@ def term(draw, families=FAMILIES):
 @st.composite
 def task_spec(draw, encodings=ENCODINGS, minmax=("min", "max"), families=FAMILIES, max_dim=8,
               classes=BOUND_CLASSES, seeded=True, styles=("direct", "direct", "transform"),
-              allow_multi_objective_max=True, mutating=0.1, array_rows=0.0, integer=0.1):
+              allow_multi_objective_max=True, mutating=0.1, array_rows=0.0, returns=0.15):
     enc = draw(st.sampled_from(encodings))
     vs = draw(variables(enc, max_dim=max_dim, classes=classes))
     mm = draw(st.sampled_from(minmax))
@@ -181,9 +181,10 @@ def task_spec(draw, encodings=ENCODINGS, minmax=("min", "max"), families=FAMILIE
                                       st.integers(0, 2 ** 32 - 1)))
     if mutating > 0 and draw(_f(0.0, 1.0)) < mutating:
         spec["objective"]["mutates_argument"] = True
-    if integer > 0 and enc != "multi_objective" and draw(_f(0.0, 1.0)) < integer:
-        # an objective that counts (a number of violated constraints, a path length in hops): Python int or numpy int64
-        spec["objective"]["integer"] = draw(st.sampled_from(["py", "np"]))
+    if returns > 0 and enc != "multi_objective" and draw(_f(0.0, 1.0)) < returns:
+        # the type of the returned number: an objective that counts (violated constraints, hops of a path) returns a
+        # Python int or a numpy int64; one written with numpy returns a float64 scalar
+        spec["objective"]["returns"] = draw(st.sampled_from(["int", "int64", "float64"]))
     if array_rows > 0 and enc == "multi_objective" and draw(_f(0.0, 1.0)) < array_rows:
         spec["objective"]["array_rows"] = True
     spec["encoding"] = enc
